@@ -388,6 +388,15 @@ def work(job):
     if light:
         prng.shuffle(imports)
         imports = imports[:30]
+    # a coordinate exactly equal to p is an alias of 0 after reduction: where (0, sqrt b) is a valid key the encoding with
+    # x = p would be taken for that point unless the range test refuses it (always generated, also in light mode)
+    y0 = ec.sqrt_mod(c.b % c.p, c.p)
+    if y0 is not None and ecdsa.valid_public_key(c, (0, y0)) and E(c.p) is not None:
+        pb, y0b = E(c.p), E(y0)
+        imports.append(("x=p:alias-of-0:packed", b"\x04" + pb + y0b, None, None))
+        imports.append(("x=p:alias-of-0:concat", pb + y0b, None, None))
+        imports.append(("x=p:alias-of-0:separate", pb, y0b, None))
+        imports.append(("x=p:alias-of-0:compressed", bytes([2 + (y0 & 1)]) + pb, None, None))
     for (kind, qx, qy, claim) in imports:
         add("import", case_import(ci, le, qx, qy, claim, pat=pat()), sub=kind, qx=qx, qy=qy)
     # size sweeps: exact-size blocks, every accepted size
